@@ -139,13 +139,7 @@ def xfModel (op : XfOp) (src : TObs) : Except String (Option Meta × Option Meta
   match op.name with
   | "split" => pure (mSplit op.k m, sSplit op.k m)
   | "swizzle" => pure (some (mSwizzle op.order m), some (sSwizzle op.order m))
-  | "swap" =>
-    let emptyBranch := src.allEmpty.getD op.k false
-    let truthy := src.rep.all (fun s => s != Sx.n 0 && s != Sx.nil)
-    -- only the (empty) root is detached by `copy(preserve_owner=False)`; deeper fibers still answer
-    -- through their old ranks, which give a shape only if it was authoritative
-    let carried := if m.shape.isSome && src.levels.length = m.ids.length && truthy then m.shape else none
-    pure (mSwap op.k emptyBranch carried m, sSwap op.k m)
+  | "swap" => pure (mSwap op.k m, sSwap op.k m)
   | "flatten" | "merge" => pure (mFlatten op.style op.k op.levels m, sFlatten op.style op.k op.levels m)
   | "unflatten" => pure (mUnflatten op.k op.levels src.rep m, sUnflatten op.k op.levels m)
   | "updc" | "updp" => pure (some (mUpdate m), some m)
